@@ -252,7 +252,7 @@ func c19Signed(pool *ModelPool, v *Verdict, rng *RNG, name string, bufs []pacBuf
 			// C19 matter; it is reported under C04. Counted here for the record.
 			v.Case("", "sandbox "+g)
 			if want == "ok" {
-				v.Violate("failing-input", "c19:"+kind+":crash", "a genuinely signed PAC crashes the process", map[string]string{"pac": X(d)})
+				v.Violate("failing-input", "c19:"+kind+":crash", "a genuinely signed PAC crashes the process", map[string]string{"pac": X(d), "sandbox": g})
 			}
 			return
 		}
